@@ -572,8 +572,8 @@ class InterpND(object):
         if d_dvalues is not None:
             dy_ddata = np.zeros((vec_size, n_interp, n_cp), dtype=d_dvalues.dtype)
 
-            if d_dvalues.shape[0] == vec_size:
-                # Akima precomputes derivs at all points in vec_size.
+            if len(d_dvalues.shape) == 3:
+                # Akima precomputes derivs at all points in vec_size: (vec_size, n_interp, n_cp).
                 dy_ddata[:] = d_dvalues
             else:
                 # Bsplines computed derivative is the same at all points in vec_size.
